@@ -39,6 +39,9 @@ CHECKS = {
  "C20": dict(engine="netsim", cat="model_checking", tech="stateless deviation-bounded DFS over delivery schedules of concurrent operations on real DhtNetworkManagers, with stop() and peer-silencing as scheduler choices at every choice point; liveness horizon on the paused virtual clock",
    text="1..2 (thorough 3) concurrent client operations from {find_node, put, get, ping} on one or two nodes of every connected graph of N<=3 (thorough: plus 4-node families) while the other nodes serve them; every single deviation (out-of-order delivery, drop, early timeout, stop() on any node, a peer silent from now on) at every choice point of the default execution (two deviations on the 2-node items in thorough); full meshes of 6..12 nodes in the default environment. Clauses: every operation completes within 21 x (dial + request timeout) of virtual time, stop() returns within (peers+1) x timeout, a stopped node serves no request and sends none. Right level: quantifies over schedules and fault timings.",
    note="liveness is judged on the paused tokio clock: a quiescent runtime with an unfinished operation and no timer is a deadlock; transport shutdown is the caller's job and not judged.", ref="3/C20"),
+ "C05": dict(engine="inputs", cat="exploration", tech="bounded-exhaustive input enumeration: every input within 1 (thorough 2) site-mutations of a valid instance of every message kind, fed to every inbound entry point of the real code (incl. the real dispatcher through raw-frame injection), counting allocator, complete size / timestamp / claimed-sender grids",
+   text="Seeds: one valid instance of every wire frame, DHT message (7 operations, 9 results, 4 types), request/response envelope, core-engine request (9 variants) and DHT record (4 kinds). All single site-mutations (8 byte values, delete, 3 inserts, truncate, 7 oversized varints at every offset, appends) are fed to parse_protocol_message, handle_dht_message, parse_request_envelope, DhtCoreEngine::handle_request and DhtRecord::deserialize/serialize; size ladder 65535..131072; value sizes around 512; timestamp window edges; six claimed-sender values through the real dispatcher. Right level: the property quantifies over inputs; the structure-aware neighbourhood of valid messages is finite and enumerated completely.",
+   note="random strings are not claimed; allocation limit 1 MiB + 4 x input (64 KiB for refused oversized DHT messages).", ref="3/C05"),
  "C06": dict(engine="crash", cat="fault_enumeration", tech="exhaustive crash-point and torn-write enumeration over operation histories of the real PersistentStateManager, reference-model oracle, second crash/restart cycle",
    text="Every history over {upsert, delete, batch(2), checkpoint} up to the tier length (quick 4, thorough 5) is executed on the real manager under several flush/rotation/clock configurations; every instrumented step of write/rotate/checkpoint inside the last operation and every byte-prefix of every append is a crash image; each image is reopened by a fresh manager and compared with the prefix-closed reference model; from every recovered state every one-operation extension plus clean restart is run and transaction ids inspected. Right level: the property quantifies over crash points and histories.",
    note="crash model = process death (written bytes survive in order); virtual wall clock through the timestamp hook; batch = one operation.", ref="3/C06"),
